@@ -1303,6 +1303,8 @@ pub fn parse_chunk_size(buf: &[u8])
                 size *= RADIX;
                 size += (b + 10 - b'A') as u64;
             }
+            // A chunk size has at least one hex digit (`chunk-size = 1*HEXDIG`): nothing else may start the line.
+            _ if in_chunk_size && count == 0 => return Err(InvalidChunkSize),
             b'\r' => {
                 match next!(bytes) {
                     b'\n' => break,
